@@ -25,8 +25,10 @@ J gen_fault(const std::string& prop, uint64_t run_seed, const std::string& tier)
     Rng nofault(0, "none");
     gen_hist_ops(g, nofault, "C04", npre, false, pre);
     // target: an operation that can allocate
-    static const int T[] = {OP_LOAD_RAW, OP_LOAD_RAW, OP_LOAD, OP_COPY, OP_COPY, OP_COPY, OP_SERIALIZE_ALLOC, OP_PUSH, OP_PUSH, OP_MAP_ADD, OP_MAP_ADD, OP_ADD_CHUNK, OP_ADD_CHUNK, OP_BUILD_TAG,
-                            OP_NEW_INT, OP_NEW_FLOAT, OP_NEW_CTRL, OP_NEW_BSTR, OP_NEW_TSTR, OP_NEW_INDEF_BSTR, OP_NEW_INDEF_TSTR, OP_NEW_DEF_ARRAY, OP_NEW_INDEF_ARRAY, OP_NEW_DEF_MAP, OP_NEW_INDEF_MAP, OP_NEW_TAG, OP_SET};
+    // operations that allocate; weighted towards those with many requests (copy / load of whole trees)
+    static const int T[] = {OP_LOAD_RAW, OP_LOAD_RAW, OP_LOAD_RAW, OP_LOAD_RAW, OP_LOAD, OP_LOAD, OP_COPY, OP_COPY, OP_COPY, OP_COPY, OP_COPY, OP_COPY, OP_SERIALIZE_ALLOC, OP_SERIALIZE_ALLOC,
+                            OP_PUSH, OP_PUSH, OP_SET, OP_MAP_ADD, OP_MAP_ADD, OP_ADD_CHUNK, OP_ADD_CHUNK, OP_BUILD_TAG,
+                            OP_NEW_INT, OP_NEW_FLOAT, OP_NEW_CTRL, OP_NEW_BSTR, OP_NEW_TSTR, OP_NEW_INDEF_BSTR, OP_NEW_INDEF_TSTR, OP_NEW_DEF_ARRAY, OP_NEW_INDEF_ARRAY, OP_NEW_DEF_MAP, OP_NEW_INDEF_MAP, OP_NEW_TAG};
     int code = T[g.below(sizeof T / sizeof T[0])]; uint64_t fill_for_set = 0;
     // growth prelude: bring a fresh indefinite container to a capacity boundary so the target insert must reallocate
     if (code == OP_PUSH || code == OP_SET || code == OP_MAP_ADD || code == OP_ADD_CHUNK) {
